@@ -1,14 +1,3 @@
 #!/bin/sh
-# Copies the contract files (comment-only files and proof harnesses, all `//go:build verif`) from /verif/contracts
-# into /repo and commits them there as one hook commit. /verif/contracts is the working copy; /repo's copy is what
-# a fresh checkout of /repo carries. Nothing but *_verif.go files is touched.
-set -e
-cd /verif/contracts
-find . -name '*_verif.go' | while read f; do
-  head -5 "$f" | grep -q '^//go:build verif' || { echo "missing build tag: $f"; exit 1; }
-  mkdir -p "/repo/$(dirname "$f")"; cp "$f" "/repo/$f"
-done
-cd /repo
-git add -A -- $(git ls-files -o -m --exclude-standard | grep '_verif.go$') 2>/dev/null || true
-if git diff --cached --quiet; then echo "contracts in /repo already up to date"; else
-  git commit -q -m "verif: contract files and proof harnesses (build tag verif)" && git log --oneline -1; fi
+# Kept as an alias: the copy into /repo, the hook commit and its recording are done by sync_hooks.sh.
+exec sh /verif/tools/sync_hooks.sh
